@@ -110,8 +110,8 @@ Proof.
     rewrite ?set_phase_map, ?remove_site_map; reflexivity.
 Qed.
 
-Theorem trans_commute c t fresh s :
-  trans c t (f fresh) (sm s) = option_map (map sm) (trans c t fresh s).
+Theorem trans_commute v c t fresh s :
+  trans v c t (f fresh) (sm s) = option_map (map sm) (trans v c t fresh s).
 Proof.
   destruct s as [p st tr]. unfold trans. cbn [smap pc stack truth].
   destruct (length c <=? p); [reflexivity|].
@@ -122,6 +122,7 @@ Proof.
   - (* ICache *) reflexivity.
   - reflexivity.
   - reflexivity.
+  - (* IPrecall *) reflexivity.
   - (* IResume *) rewrite Hexc, <- both_map. reflexivity.
   - (* ILoadConst *) reflexivity.
   - (* IPop *) destruct st; reflexivity.
@@ -135,16 +136,20 @@ Proof.
     destruct async; cbn [option_map map]; rewrite sm_mk; cbn [map vmap]; rewrite map_app; reflexivity.
   - (* IGetAwaitable *) destruct st; [reflexivity|]. rewrite Hexc. cbn [map]. rewrite <- both_map. reflexivity.
   - (* ISend *)
-    destruct st as [|v [|recv r]]; try reflexivity. rewrite Hexc. cbn [map].
-    rewrite event_map, <- both_map. reflexivity.
-  - (* IEndSend *) destruct st as [|v [|w r]]; reflexivity.
+    destruct st as [|x [|recv r]]; try reflexivity. rewrite Hexc. cbn [map].
+    rewrite event_map, <- both_map. destruct v; reflexivity.
+  - (* IEndSend *) destruct st as [|x [|w r]]; reflexivity.
   - (* ICleanupThrow *)
     destruct st as [|a [|b [|recv r]]]; try reflexivity. rewrite Hexc. cbn [map].
     rewrite event_map, <- both_map. reflexivity.
   - (* IYield *)
-    destruct st as [|v r]; [reflexivity|]. cbn [map].
+    destruct st as [|x r]; [reflexivity|]. cbn [map].
     change (VO :: map vm r) with (map vm (VO :: r)).
-    rewrite exc_edge_map, <- both_map. reflexivity.
+    destruct v.
+    + rewrite exc_edge_map, <- !both_map. f_equal.
+      destruct (at_ c (p - 1)); try reflexivity. destruct r as [|recv r']; [reflexivity|].
+      cbn [map]. rewrite event_map. reflexivity.
+    + rewrite exc_edge_map, <- both_map. reflexivity.
   - (* ICall *)
     rewrite nth_error_map'. destruct (nth_error st (S n)) as [[|s i|s i|s i]|]; cbn [option_map vmap]; try reflexivity.
     + rewrite <- map_firstn, all_VO_map. destruct (all_VO (firstn (S n) st)); [|reflexivity].
@@ -161,13 +166,17 @@ Proof.
   - (* IReturn *) rewrite map_length. destruct (pops <=? length st); reflexivity.
   - (* IJump *) destruct k; try reflexivity. rewrite Hexc, <- both_map. reflexivity.
   - (* ICondJump *)
-    destruct st as [|v r]; [reflexivity|]. cbn [map]. rewrite is_VO_map.
-    destruct (negb (is_VO v)); [reflexivity|].
+    destruct st as [|x r]; [reflexivity|]. cbn [map]. rewrite is_VO_map.
+    destruct (negb (is_VO x)); [reflexivity|].
     change (VO :: map vm r) with (map vm (VO :: r)).
     destruct raises.
-    + change (vm v :: map vm r) with (map vm (v :: r)). rewrite Hexc, <- both_map. reflexivity.
+    + change (vm x :: map vm r) with (map vm (x :: r)). rewrite Hexc, <- both_map. reflexivity.
     + reflexivity.
-  - (* IForIter *) rewrite Hexc, <- both_map. reflexivity.
+  - (* IJumpOrPop *)
+    destruct st as [|x r]; [reflexivity|]. cbn [map]. rewrite is_VO_map.
+    destruct (negb (is_VO x)); [reflexivity|].
+    change (vm x :: map vm r) with (map vm (x :: r)). rewrite Hexc, <- both_map. reflexivity.
+  - (* IForIter *) rewrite Hexc, <- both_map. destruct v; [destruct st|]; reflexivity.
   - (* IGen *)
     rewrite map_length, <- map_firstn, all_VO_map.
     destruct ((pops <=? length st) && all_VO (firstn pops st)); [|reflexivity].
@@ -179,35 +188,35 @@ Qed.
 End Commute.
 
 (* ------------------------------------------------------------------ reachability, soundness *)
-Inductive reach (c : code) (t : table) : state nat -> Prop :=
-  | reach_init : reach c t (mk 0 [] [])
+Inductive reach (v : pyver) (c : code) (t : table) : state nat -> Prop :=
+  | reach_init : reach v c t (mk 0 [] [])
   | reach_step s fresh succs s' :
-      reach c t s -> trans c t fresh s = Some succs -> In s' succs -> reach c t s'.
+      reach v c t s -> trans v c t fresh s = Some succs -> In s' succs -> reach v c t s'.
 
 Definition erase : state nat -> astate := smap (fun _ => tt).
 
-Lemma check_pc_of k c t ct p : checkk k c t ct = true -> p < length c -> check_pc k c t ct p = true.
+Lemma check_pc_of v k c t ct p : checkk v k c t ct = true -> p < length c -> check_pc v k c t ct p = true.
 Proof.
   unfold checkk. intros H Hp. apply andb_true_iff in H as [H _].
   rewrite forallb_forall in H. apply H. apply in_seq. lia.
 Qed.
 
-Lemma trans_some_pc {I} c t (fr : I) s l : trans c t fr s = Some l -> pc s < length c.
+Lemma trans_some_pc {I} v c t (fr : I) s l : trans v c t fr s = Some l -> pc s < length c.
 Proof.
   unfold trans. destruct (length c <=? pc s) eqn:E; [discriminate|]. intros _.
   apply Nat.leb_gt in E. exact E.
 Qed.
 
-Theorem cert_sound k c t ct : checkk k c t ct = true ->
-  forall s, reach c t s -> cert_at ct (pc s) = Some (erase s).
+Theorem cert_sound v k c t ct : checkk v k c t ct = true ->
+  forall s, reach v c t s -> cert_at ct (pc s) = Some (erase s).
 Proof.
   intros Hc s Hr. induction Hr as [|s fresh succs s' Hr IH Ht Hin].
   - unfold checkk in Hc. apply andb_true_iff in Hc as [_ H0]. cbn [pc mk].
     destruct (cert_at ct 0); [|discriminate]. apply st_eqb_eq in H0. subst. reflexivity.
-  - pose proof (check_pc_of _ _ _ _ _ Hc (trans_some_pc _ _ _ _ _ Ht)) as Hk.
+  - pose proof (check_pc_of _ _ _ _ _ _ Hc (trans_some_pc _ _ _ _ _ _ Ht)) as Hk.
     unfold check_pc in Hk. rewrite IH in Hk.
     apply andb_true_iff in Hk as [Hk _]. apply andb_true_iff in Hk as [_ Hk].
-    pose proof (trans_commute (fun _ : nat => tt) c t fresh s) as Hcm. rewrite Ht in Hcm.
+    pose proof (trans_commute (fun _ : nat => tt) v c t fresh s) as Hcm. rewrite Ht in Hcm.
     cbn [option_map] in Hcm. unfold erase in Hk. rewrite Hcm in Hk.
     rewrite forallb_forall in Hk. specialize (Hk (erase s') (in_map _ _ _ Hin)).
     unfold ok_succ in Hk. change (pc (erase s')) with (pc s') in Hk.
@@ -269,16 +278,16 @@ Proof.
   destruct (objs_of w st bl); reflexivity.
 Qed.
 
-Lemma trickery_commute c t r l (st : list (val I)) :
-  trickery c t r l (map vm st) = tres_map f (trickery c t r l st).
+Lemma trickery_commute v c t r l (st : list (val I)) :
+  trickery v c t r l (map vm st) = tres_map f (trickery v c t r l st).
 Proof.
-  unfold trickery. destruct (with_info c t) as [w|]; [|reflexivity].
+  unfold trickery. destruct (with_info v c t) as [w|]; [|reflexivity].
   destruct (blocks t l) as [bl|]; [|reflexivity].
   replace (if r then keep_bottom (trim_depth t l) (map vm st) else map vm st)
     with (map vm (if r then keep_bottom (trim_depth t l) st else st))
     by (destruct r; [symmetry; apply keep_bottom_map|reflexivity]).
   rewrite objs_of_map. destruct (objs_of w _ bl) as [lc|]; [|reflexivity]. cbn [option_map].
-  destruct (exiting c t l); try reflexivity.
+  destruct (exiting v c t l); try reflexivity.
   destruct (winfo_get w handler) as [[site asy]|]; [|reflexivity].
   cbn [tres_map]. rewrite map_app. reflexivity.
 Qed.
@@ -393,8 +402,8 @@ Proof.
     apply incl_app; [apply incl_appl, incl_refl|apply incl_appr, tids_remove].
 Qed.
 
-Lemma trans_ids c t fresh (s : state I) succs s' :
-  trans c t fresh s = Some succs -> In s' succs ->
+Lemma trans_ids ver c t fresh (s : state I) succs s' :
+  trans ver c t fresh s = Some succs -> In s' succs ->
   incl (ids s') (match at_ c (pc s) with
                  | IBeforeWith _ => (pc s, fresh) :: ids s
                  | _ => ids s
@@ -417,6 +426,7 @@ Proof.
   - eapply Hnext; eauto using incl_refl.
   - eapply Hnext; eauto using incl_refl.
   - eapply Hnext; eauto using incl_refl.
+  - (* IPrecall *) eapply Hnext; eauto using incl_refl.
   - (* IResume *) refine (Hboth _ _ _ _ _ _ H Hin); eauto. intros; eapply Hnext; eauto using incl_refl.
   - (* ILoadConst *) eapply Hnext; eauto. rewrite tags_cons. apply incl_refl.
   - (* IPop *) destruct st as [|v r]; [discriminate|]. eapply Hnext; eauto. rewrite tags_cons. apply incl_appr, incl_refl.
@@ -441,7 +451,10 @@ Proof.
     intros la E Hl. inversion E; subst; clear E.
     assert (Hst : incl (tags (VO :: recv :: r)) (tags (v :: recv :: r)))
       by (rewrite !tags_cons; cbn [tag_id app]; apply incl_appr, incl_refl).
-    destruct Hl as [<-|[<-|[]]]; apply incl_ids; auto using incl_refl, tids_event.
+    assert (Hst' : incl (tags (VO :: r)) (tags (v :: recv :: r)))
+      by (rewrite !tags_cons; cbn [tag_id app]; apply incl_appr, incl_appr, incl_refl).
+    destruct Hl as [<-|[<-|[]]]; [apply incl_ids; auto using incl_refl|].
+    destruct ver; apply incl_ids; auto using tids_event.
   - (* IEndSend *)
     destruct st as [|v [|w r]]; try discriminate. eapply Hnext; eauto.
     rewrite !tags_cons. apply incl_app; [apply incl_appl, incl_refl|apply incl_appr, incl_appr, incl_refl].
@@ -454,10 +467,19 @@ Proof.
     destruct st as [|v r]; [discriminate|].
     assert (Hst : incl (tags (VO :: r)) (tags (v :: r)))
       by (rewrite !tags_cons; cbn [tag_id app]; apply incl_appr, incl_refl).
-    refine (Hboth _ _ _ _ _ _ H Hin).
-    + intros; eapply Hnext; eauto.
-    + intros lb E Hl. eapply incl_tran; [eapply exc_edge_ids; eauto|].
-      apply incl_app; [apply incl_appl, Hst|apply incl_appr, incl_refl].
+    assert (Hedge : forall keep lb, exc_edge t keep p (VO :: r) tr = Some lb -> In s' lb ->
+                                    incl (ids s') (tags (v :: r) ++ tids tr)).
+    { intros keep lb E Hl. eapply incl_tran; [eapply exc_edge_ids; eauto|].
+      apply incl_app; [apply incl_appl, Hst|apply incl_appr, incl_refl]. }
+    destruct ver.
+    + refine (Hboth _ _ _ _ _ _ H Hin).
+      * intros la E Hl. refine (Hboth _ _ _ _ _ _ E Hl); [intros; eapply Hnext; eauto|eauto].
+      * intros lb E Hl. destruct (at_ c (p - 1)); try (inversion E; subst; destruct Hl).
+        destruct r as [|recv r']; [inversion E; subst; destruct Hl|].
+        inversion E; subst; clear E. destruct Hl as [<-|[]].
+        apply incl_ids; [|apply tids_event].
+        rewrite !tags_cons. cbn [tag_id app]. apply incl_appr, incl_appr, incl_refl.
+    + refine (Hboth _ _ _ _ _ _ H Hin); [intros; eapply Hnext; eauto|eauto].
   - (* ICall *)
     destruct (nth_error st (S n)) as [[|s i|s i|s i]|] eqn:E; try discriminate.
     + destruct (all_VO (firstn (S n) st)); [|discriminate]. refine (Hboth _ _ _ _ _ _ H Hin); eauto.
@@ -484,10 +506,17 @@ Proof.
     refine (Hboth _ _ _ _ _ _ H Hin); eauto.
     + intros la E Hl. inversion E; subst. destruct Hl as [<-|[<-|[]]]; apply incl_ids; auto using incl_refl.
     + destruct raises; eauto; intros lb E Hl; inversion E; subst; destruct Hl.
+  - (* IJumpOrPop *)
+    destruct st as [|v r]; [discriminate|]. destruct (negb (is_VO v)); [discriminate|].
+    assert (Hst : incl (tags r) (tags (v :: r))) by (rewrite tags_cons; apply incl_appr, incl_refl).
+    refine (Hboth _ _ _ _ _ _ H Hin); eauto.
+    intros la E Hl. inversion E; subst. destruct Hl as [<-|[<-|[]]]; apply incl_ids; auto using incl_refl.
   - (* IForIter *)
     refine (Hboth _ _ _ _ _ _ H Hin); eauto.
     intros la E Hl. inversion E; subst.
-    destruct Hl as [<-|[<-|[]]]; apply incl_ids; try apply incl_refl; rewrite tags_cons; apply incl_refl.
+    destruct Hl as [<-|[<-|[]]]; apply incl_ids; try apply incl_refl; try (rewrite tags_cons; apply incl_refl).
+    destruct ver; [|rewrite tags_cons; apply incl_refl].
+    destruct st as [|x0 st0]; [apply incl_refl|]. cbn [tl]. rewrite tags_cons. apply incl_appr, incl_refl.
   - (* IGen *)
     destruct ((pops <=? length st) && all_VO (firstn pops st)); [|discriminate].
     refine (Hboth _ _ _ _ _ _ H Hin); eauto.
@@ -529,13 +558,13 @@ Proof.
   congruence.
 Qed.
 
-Theorem inv_reach k c t ct : checkk k c t ct = true -> forall s, reach c t s -> Inv s.
+Theorem inv_reach v k c t ct : checkk v k c t ct = true -> forall s, reach v c t s -> Inv s.
 Proof.
   intros Hc s Hr. induction Hr as [|s fresh succs s' Hr IH Ht Hin].
   - intros a i j [].
-  - pose proof (trans_ids _ _ _ _ _ _ Ht Hin) as Hincl.
-    pose proof (check_pc_of _ _ _ _ _ Hc (trans_some_pc _ _ _ _ _ Ht)) as Hk.
-    unfold check_pc in Hk. rewrite (cert_sound _ _ _ _ Hc _ Hr) in Hk.
+  - pose proof (trans_ids _ _ _ _ _ _ _ Ht Hin) as Hincl.
+    pose proof (check_pc_of _ _ _ _ _ _ Hc (trans_some_pc _ _ _ _ _ _ Ht)) as Hk.
+    unfold check_pc in Hk. rewrite (cert_sound _ _ _ _ _ Hc _ Hr) in Hk.
     apply andb_true_iff in Hk as [Hk _]. apply andb_true_iff in Hk as [Hk _].
     unfold erase in Hk. rewrite noreentry_smap in Hk. unfold noreentry in Hk.
     destruct (at_ c (pc s)); try (eapply Inv_incl; eassumption).
@@ -577,18 +606,18 @@ Proof.
     unfold tags. apply in_flat_map. exists (VX s i). split; [exact Hin|left; reflexivity].
 Qed.
 
-Lemma trickery_src {I} c t r l (st : list (val I)) lc :
-  trickery c t r l st = TOk lc ->
+Lemma trickery_src {I} v c t r l (st : list (val I)) lc :
+  trickery v c t r l st = TOk lc ->
   forall x i, In x lc -> c_obj x = Some i -> In (c_from x, i) (tags st).
 Proof.
-  unfold trickery. destruct (with_info c t) as [w|]; [|discriminate].
+  unfold trickery. destruct (with_info v c t) as [w|]; [|discriminate].
   destruct (blocks t l) as [bl|]; [|discriminate].
   destruct (objs_of w _ bl) as [lo|] eqn:Eo; [|discriminate].
   assert (Hsrc : forall x i, In x lo -> c_obj x = Some i -> In (c_from x, i) (tags st)).
   { intros x i Hx Hi. destruct (objs_of_src _ _ _ _ Eo x Hx) as (i' & Hi' & Hin).
     rewrite Hi in Hi'. inversion Hi'; subst.
     destruct r; [eapply tags_keep_bottom; eauto|exact Hin]. }
-  destruct (exiting c t l).
+  destruct (exiting v c t l).
   - intros H; inversion H; subst. exact Hsrc.
   - destruct (winfo_get w handler) as [[site asy]|]; [|discriminate].
     intros H; inversion H; subst. intros x i Hx Hi. apply in_app_or in Hx as [Hx|[<-|[]]]; eauto.
@@ -642,67 +671,67 @@ Proof.
   - apply IH; auto; intros; [eapply Hx|eapply Hy]; eauto; right; assumption.
 Qed.
 
-Lemma obs_checked k c t ct : checkk k c t ct = true ->
-  forall s, reach c t s -> forall o, In o (obs c s) ->
-  obs_check k c t (omap (fun _ => tt) o) = true.
+Lemma obs_checked v k c t ct : checkk v k c t ct = true ->
+  forall s, reach v c t s -> forall o, In o (obs c s) ->
+  obs_check v k c t (omap (fun _ => tt) o) = true.
 Proof.
   intros Hc s Hr o Hin.
   assert (Hp : pc s < length c).
   { destruct (Nat.lt_ge_cases (pc s) (length c)) as [|Hge]; [assumption|exfalso].
     unfold obs, at_ in Hin. rewrite nth_overflow in Hin by exact Hge. destruct Hin. }
-  pose proof (check_pc_of _ _ _ _ _ Hc Hp) as Hk. unfold check_pc in Hk.
-  rewrite (cert_sound _ _ _ _ Hc _ Hr) in Hk. apply andb_true_iff in Hk as [_ Hk].
+  pose proof (check_pc_of _ _ _ _ _ _ Hc Hp) as Hk. unfold check_pc in Hk.
+  rewrite (cert_sound _ _ _ _ _ Hc _ Hr) in Hk. apply andb_true_iff in Hk as [_ Hk].
   unfold erase in Hk. rewrite obs_commute, forallb_forall in Hk.
   exact (Hk _ (in_map (omap (fun _ => tt)) _ _ Hin)).
 Qed.
 
-Lemma obs_ok_exact k c t ct : checkk k c t ct = true ->
-  forall s, reach c t s ->
+Lemma obs_ok_exact v k c t ct : checkk v k c t ct = true ->
+  forall s, reach v c t s ->
   forall r l st tr, In (r, l, st, tr) (obs c s) ->
-  obs_ok c t (omap (fun _ => tt) (r, l, st, tr)) = true ->
-  trickery c t r l st = TOk (expected tr).
+  obs_ok v c t (omap (fun _ => tt) (r, l, st, tr)) = true ->
+  trickery v c t r l st = TOk (expected tr).
 Proof.
   intros Hc s Hr r l st tr Hin Hk. cbn [omap obs_ok] in Hk.
   rewrite trickery_commute, expected_commute in Hk.
-  destruct (trickery c t r l st) as [lc| |] eqn:Et; cbn [tres_map tres_ok] in Hk; try discriminate.
+  destruct (trickery v c t r l st) as [lc| |] eqn:Et; cbn [tres_map tres_ok] in Hk; try discriminate.
   apply list_eqb_eq in Hk; [|apply ctxv_eqb_eq]. f_equal.
   destruct (obs_ids _ _ _ _ _ _ Hin) as [Hst Htr].
-  pose proof (inv_reach _ _ _ _ Hc _ Hr) as HI.
+  pose proof (inv_reach _ _ _ _ _ Hc _ Hr) as HI.
   apply (cmap_inj_under (fun x => In x (ids s)) HI); [exact Hk| |].
   - intros x i Hx Hi. unfold ids. apply in_or_app. left. apply Hst. eapply trickery_src; eauto.
   - intros y j Hy Hj. unfold ids. apply in_or_app. right. apply Htr. eapply expected_src; eauto.
 Qed.
 
-Theorem analysis_exact k c t ct : checkk k c t ct = true ->
-  forall s, reach c t s ->
+Theorem analysis_exact v k c t ct : checkk v k c t ct = true ->
+  forall s, reach v c t s ->
   forall running lasti st tr, In (running, lasti, st, tr) (obs c s) ->
   (k = KSusp /\ running = false) \/ (k = KRun /\ running = true) ->
-  trickery c t running lasti st = TOk (expected tr).
+  trickery v c t running lasti st = TOk (expected tr).
 Proof.
   intros Hc s Hr r l st tr Hin Hsel.
   eapply obs_ok_exact; eauto.
-  pose proof (obs_checked _ _ _ _ Hc _ Hr _ Hin) as Hk. cbn [omap obs_check] in Hk.
+  pose proof (obs_checked _ _ _ _ _ Hc _ Hr _ Hin) as Hk. cbn [omap obs_check] in Hk.
   destruct Hsel as [[-> ->]|[-> ->]]; exact Hk.
 Qed.
 Print Assumptions analysis_exact.
 
 (* ------------------------------------------------------------------ executable paths (for non-vacuity examples) *)
 (* follow a path given as (fresh instance, index of the chosen successor) pairs *)
-Fixpoint exec (c : code) (t : table) (path : list (nat * nat)) (s : state nat) : option (state nat) :=
+Fixpoint exec (v : pyver) (c : code) (t : table) (path : list (nat * nat)) (s : state nat) : option (state nat) :=
   match path with
   | [] => Some s
   | (fresh, k) :: r =>
-      match trans c t fresh s with
-      | Some succs => match nth_error succs k with Some s' => exec c t r s' | None => None end
+      match trans v c t fresh s with
+      | Some succs => match nth_error succs k with Some s' => exec v c t r s' | None => None end
       | None => None
       end
   end.
 
-Lemma exec_reach c t path : forall s s', reach c t s -> exec c t path s = Some s' -> reach c t s'.
+Lemma exec_reach v c t path : forall s s', reach v c t s -> exec v c t path s = Some s' -> reach v c t s'.
 Proof.
   induction path as [|[fresh k] r IH]; intros s s' Hr H; cbn [exec] in H.
   - inversion H; subst; exact Hr.
-  - destruct (trans c t fresh s) as [succs|] eqn:Et; [|discriminate].
+  - destruct (trans v c t fresh s) as [succs|] eqn:Et; [|discriminate].
     destruct (nth_error succs k) as [s1|] eqn:En; [|discriminate].
     eapply IH; [|exact H]. eapply reach_step; eauto. eapply nth_error_In; eauto.
 Qed.
@@ -741,22 +770,22 @@ Proof.
     + apply nth_error_In in Es. apply in_rev in Es. exact Es.
 Qed.
 
-Theorem trim_safe c t ct : checkk KRun c t ct = true ->
-  forall s, reach c t s ->
+Theorem trim_safe v c t ct : checkk v KRun c t ct = true ->
+  forall s, reach v c t s ->
   forall lasti st tr, In (true, lasti, st, tr) (obs c s) ->
   forall x i, In x (expected tr) -> c_obj x = Some i ->
   In (VX (c_site x) i) (keep_bottom (trim_depth t lasti) st).
 Proof.
   intros Hc s Hr l st tr Hin x i Hx Hi.
-  pose proof (analysis_exact _ _ _ _ Hc _ Hr _ _ _ _ Hin (or_intror (conj eq_refl eq_refl))) as Ha.
+  pose proof (analysis_exact _ _ _ _ _ Hc _ Hr _ _ _ _ Hin (or_intror (conj eq_refl eq_refl))) as Ha.
   assert (Hfrom : c_from x = c_site x).
   { unfold expected in Hx. apply in_flat_map in Hx as (e & _ & Hx).
     destruct (t_phase e); cbn in Hx; try contradiction; destruct Hx as [<-|[]]; reflexivity. }
-  unfold trickery in Ha. destruct (with_info c t) as [w|]; [|discriminate].
+  unfold trickery in Ha. destruct (with_info v c t) as [w|]; [|discriminate].
   destruct (blocks t l) as [bl|]; [|discriminate].
   destruct (objs_of w _ bl) as [lo|] eqn:Eo; [|discriminate].
   rewrite <- Hfrom. eapply objs_of_slots; [exact Eo| |exact Hi].
-  destruct (exiting c t l).
+  destruct (exiting v c t l).
   - inversion Ha; subst. exact Hx.
   - destruct (winfo_get w handler) as [[site asy]|]; [|discriminate]. inversion Ha as [Hl].
     rewrite <- Hl in Hx. apply in_app_or in Hx as [Hx|[<-|[]]]; [exact Hx|discriminate].
